@@ -195,6 +195,60 @@ def plan_merge(own_k: bool, own_l: bool, anc_k: bool, anc_l: bool, red_k: bool, 
             return True
 
 
+def replan_fresh(own_k: bool, anc1_k: bool, anc2_k: bool, anc1_l: bool, anc2_l: bool, task_writes_k: bool) -> bool:
+    """
+    post: _
+    """
+    from stabilize.handlers.jump_to_stage.reset import reset_stage_for_retry
+
+    with hx.Path("replan_fresh") as P:
+        ok, a1, a2, l1, l2, tw = hx.decide(own_k), hx.decide(anc1_k), hx.decide(anc2_k), hx.decide(anc1_l), hx.decide(anc2_l), hx.decide(task_writes_k)
+        with hx.native():
+            anc = {"x": "it1"}
+            if a1:
+                anc["k"] = "it1"
+            if l1:
+                anc["l"] = ["p1"]
+            ctx = {"own_only": 1}
+            if ok:
+                ctx["k"] = "own"
+            st = StageExecution(ref_id="j", name="j", type="vf_noop_type", context=ctx, requisite_stage_ref_ids={"u1"},
+                                tasks=[TaskExecution.create(name="t", implementing_class="x")])
+            u1 = StageExecution(ref_id="u1", name="u1")
+            wf = Workflow(application="a", name="w", stages=[u1, st])
+            repo = _Repo(anc, [u1])
+        pl = _Planner(repo)
+        pl._plan_stage(st)
+        with hx.native():
+            if tw:
+                st.context["mine"] = "written-by-own-task"  # a task of the stage wrote to its context in iteration 1
+            st.outputs = {"o": 1}
+        reset_stage_for_retry(st)  # the jump_to loop re-arms the stage
+        with hx.native():
+            anc2 = {"x": "it2"}
+            if a2:
+                anc2["k"] = "it2"
+            if l2:
+                anc2["l"] = ["p2"]
+            repo.a = anc2
+        pl._plan_stage(st)
+        with hx.native():
+            c = st.context
+            P.reached((ok, a1, a2, l1, l2, tw))
+            info = {"own_k": ok, "ancestor_k_iteration1": a1, "ancestor_k_iteration2": a2, "context": {k: c.get(k) for k in ("k", "l", "x", "own_only", "mine")}}
+            if c.get("x") != "it2":
+                return P.fail("C16/replan/stale_value_of_previous_iteration", info)
+            want_k = "own" if ok else ("it2" if a2 else None)
+            if c.get("k") != want_k:
+                return P.fail("C16/replan/own_value_lost" if ok else "C16/replan/stale_value_of_previous_iteration", {**info, "want_k": want_k})
+            if c.get("own_only") != 1 or (tw and c.get("mine") != "written-by-own-task"):
+                return P.fail("C16/replan/own_context_lost", info)
+            if l2 and "p2" not in (c.get("l") or []):
+                return P.fail("C16/replan/list_value_of_current_iteration_missing", info)
+            del wf
+            return True
+
+
 def _perm(p: int, vals: list) -> list:
     perms = [[0, 1, 2], [0, 2, 1], [1, 0, 2], [1, 2, 0], [2, 0, 1], [2, 1, 0]]
     return [vals[i] for i in perms[p]]
@@ -245,15 +299,17 @@ def reducers_perm(a: int, b: int, c: int, p: int, present: int) -> bool:
 PLAN = [
     ("merge4", "quick", 280),
     ("plan_merge", "quick", 200),
+    ("replan_fresh", "quick", 200),
     ("reducers_perm", "quick", 280),
     ("merge5_chainish", "thorough", 1500),
 ]
 
 META = {
-    "functions": ["src/stabilize/persistence/sqlite/queries.py:get_merged_ancestor_outputs", "src/stabilize/handlers/start_stage/planner.py:_plan_stage",
+    "functions": ["src/stabilize/persistence/sqlite/queries.py:get_merged_ancestor_outputs", "src/stabilize/handlers/start_stage/planner.py:_plan_stage", "src/stabilize/handlers/jump_to_stage/reset.py:reset_stage_for_retry",
                   "src/stabilize/reducers.py:apply_output_reducers + built-in reducers sum/max/min/collect/extend/merge"],
     "bounds": ["ancestor merge: every DAG on 4 stages x which of the first three publish a scalar key x which publish a list key; one unrelated stage always publishes both",
                "planner merge: own/ancestor presence of a scalar and a list key, reducer on/off, which of two upstream branches publish the reduced key",
+               "re-planning after a jump_to re-arm: presence of the key in own context / in the ancestors' outputs of iteration 1 / of iteration 2, own task write in between",
                "reducers: 3 branches with symbolic integer values in [-3,3], every subset present, every permutation"],
     "stubs": ["sqlite3.Connection replaced by a row provider for the single SELECT of get_merged_ancestor_outputs", "repository replaced by a 3-method stub for _plan_stage", "ids: ULID() replaced by a counter"],
     "assumptions": ["only path-ordered keys are asserted for the scalar merge: when two publishing ancestors are unrelated either may win (as the property says)"],
